@@ -527,9 +527,12 @@ class Item:
             self.rewrite(s0, bs, hdr + "let vx_r = ", "R3-find_map")
             self.rewrite(be, semi + 1, tail, "R3-find_map")
 
-    def r3_for_index(self, fn, k):
+    def r3_for_index(self, fn, k, mode="ref"):
         """for X in RECV { BODY }  (RECV a slice/Vec/&Vec expression) ==> index while-loop;
-        `continue` inside BODY is preceded by the index increment; BODY stays in place"""
+        `continue` inside BODY is preceded by the index increment; BODY stays in place.
+        mode: ref  -> let X = &RECV[i];      val -> let X = RECV[i];   (iterators yielding Copy values)
+              enum -> for (I, X) in RECV.iter().enumerate(): let I = i; let X = &RECV[i];
+        The index variable is vx_i for loop #1 of the fn and vx_i<k> for loop #k."""
         ls = self.loops(fn)
         if k > len(ls) or ls[k - 1][0] != "for":
             raise Undecided("LOST-ANCHOR: R3 for-index loop %d of fn %s in %s" % (k, fn, self.where()))
@@ -539,15 +542,44 @@ class Item:
         if not mo:
             raise Undecided("R3 for-index: header not recognised")
         pat, recv = mo.group(1).strip(), mo.group(2).strip()
+        iv = "vx_i" if k == 1 else "vx_i%d" % k
         inner = [x for x in ls if bopen < x[1] < bclose]
         r = recv[1:].strip() if recv.startswith("&") else recv
-        self.rewrite(s, bopen + 1, "let mut vx_i: usize = 0;\n    while vx_i < %s.len()\n    /*@loop*/\n    {\n      let %s = &%s[vx_i];/*@body*/" % (r, pat, r), "R3-for-index")
+        pre = ""
+        if mode == "enum":
+            me = re.match(r"(.+?)\s*\.\s*iter\s*\(\s*\)\s*\.\s*enumerate\s*\(\s*\)$", r, re.S)
+            mp = re.match(r"\(\s*([A-Za-z_][A-Za-z0-9_]*)\s*,\s*([A-Za-z_][A-Za-z0-9_]*)\s*\)$", pat)
+            if not me or not mp:
+                raise Undecided("R3 for-enumerate: header not recognised at %s:%d" % (self.relpath, self.line_of(s)))
+            r = me.group(1).strip()
+            bind = "let %s = %s; let %s = &%s[%s];" % (mp.group(1), iv, mp.group(2), r, iv)
+        else:
+            if mode == "bitset":
+                # `for k in &SET` over a bit_set::BitSet: iterate the member list (trusted shim vx_bitset_members)
+                r = "vx_bitset_members(&%s)" % r
+                mode = "val"
+            if not re.match(r"[A-Za-z_][A-Za-z0-9_.]*$", r):
+                # not a place expression: evaluate it once
+                rv = "vx_recv" if k == 1 else "vx_recv%d" % k
+                pre = "let %s = %s;\n    " % (rv, r)
+                r = rv
+            bind = "let %s = %s%s[%s];" % (pat, "&" if mode == "ref" else "", r, iv)
+        self.rewrite(s, bopen + 1, "%slet mut %s: usize = 0;\n    while %s < %s.len()\n    /*@loop*/\n    {\n      %s/*@body*/" % (pre, iv, iv, r, bind), "R3-for-index")
         for c in re.finditer(r"\bcontinue\b", self.m[bopen + 1:bclose]):
             cpos = bopen + 1 + c.start()
             if any(lo_ < cpos < lc_ for (_, _, lo_, lc_) in inner):
                 continue  # belongs to a nested loop
-            self.rewrite(cpos, cpos + len("continue"), "{ vx_i = vx_i + 1; continue }", "R3-for-index")
-        self.rewrite(bclose, bclose, "  vx_i = vx_i + 1;\n    ", "R3-for-index")
+            self.rewrite(cpos, cpos + len("continue"), "{ %s = %s + 1; continue }" % (iv, iv), "R3-for-index")
+        self.rewrite(bclose, bclose, "  %s = %s + 1;\n    " % (iv, iv), "R3-for-index")
+
+    def r3_for_index_val(self, fn, k):
+        self.r3_for_index(fn, k, "val")
+
+    def r3_for_enumerate(self, fn, k):
+        self.r3_for_index(fn, k, "enum")
+
+    def r3_for_bitset(self, fn, k):
+        self.r3_for_index(fn, k, "bitset")
 
     def r3_for_rev(self, fn, k):
         """for PAT in RECV.iter().rev() { BODY }  ==>  index loop from RECV.len() down to 0
